@@ -62,23 +62,13 @@ fn serialize_range_mappings(sm: &SourceMap) -> Option<String> {
     let mut had_rmi = false;
     let mut empty = true;
 
-    let mut idx_of_first_in_line = 0;
+    // index of the next mapping within the current line, counting only the
+    // mappings that `serialize_mappings` actually writes
+    let mut idx_in_line = 0;
 
     let mut rmi_data = Vec::<u8>::new();
 
     for (idx, token) in sm.tokens().enumerate() {
-        if token.is_range() {
-            had_rmi = true;
-            empty = false;
-
-            let num = idx - idx_of_first_in_line;
-
-            rmi_data.resize(rmi_data.len() + 2, 0);
-
-            let rmi_bits = rmi_data.view_bits_mut::<Lsb0>();
-            rmi_bits.set(num, true);
-        }
-
         while token.get_dst_line() != prev_line {
             if had_rmi {
                 encode_rmi(&mut buf, &rmi_data);
@@ -88,8 +78,27 @@ fn serialize_range_mappings(sm: &SourceMap) -> Option<String> {
             buf.push(b';');
             prev_line += 1;
             had_rmi = false;
-            idx_of_first_in_line = idx;
+            idx_in_line = 0;
         }
+
+        // exact duplicates of the previous token are not written to `mappings`
+        if idx > 0 && Some(&token) == sm.get_token(idx - 1).as_ref() {
+            continue;
+        }
+
+        if token.is_range() {
+            had_rmi = true;
+            empty = false;
+
+            if rmi_data.len() * 8 <= idx_in_line {
+                rmi_data.resize(idx_in_line / 8 + 1, 0);
+            }
+
+            let rmi_bits = rmi_data.view_bits_mut::<Lsb0>();
+            rmi_bits.set(idx_in_line, true);
+        }
+
+        idx_in_line += 1;
     }
     if empty {
         return None;
